@@ -150,7 +150,7 @@ def gen_setup(rng, n, gap=False):
         ops.append({"s": "A", "cmd": cmd})
     ops.append({"s": "A", "cmd": "x SELECT inbox"})
     if total > n:
-        k = rng.randint(1, total - 1)
+        k = rng.randint(1, total)      # also the highest UID: UIDNEXT - 1 is then not the UID of the last message
         ops.append({"s": "A", "cmd": f"x STORE {k} +FLAGS.SILENT (\\Deleted)"})
         ops.append({"s": "A", "cmd": f"x UID EXPUNGE {k}"})   # fresh mailbox: UID k is message k
     if n and rng.random() < 0.25:
